@@ -48,6 +48,9 @@ type FSState struct {
 
 var FS = NewFS()
 
+// TornWrites: file writes become durable in two halves (crash harnesses).
+var TornWrites bool
+
 func NewFS() *FSState {
 	return &FSState{nodes: map[string]*fnode{}, handles: map[*os.File]*handle{}}
 }
@@ -287,18 +290,27 @@ func FileWrite(f *os.File, b []byte) (int, error) {
 	}
 	FS.Writes++
 	if n > 0 {
-		nd.Mutation("fs.write " + h.p)
-		// overwrite / extend at the current offset
-		for len(h.n.data) < h.pos {
-			h.n.data = append(h.n.data, 0)
+		// a write of several bytes reaches the device in two parts, so that a crash can leave a
+		// torn prefix of it (each part is a persistent mutation of its own)
+		parts := []int{n}
+		if n > 1 && TornWrites {
+			parts = []int{n / 2, n - n/2}
 		}
-		keep := h.n.data[:h.pos:h.pos]
-		tail := []byte(nil)
-		if h.pos+n < len(h.n.data) {
-			tail = h.n.data[h.pos+n:]
+		off := 0
+		for _, k := range parts {
+			nd.Mutation("fs.write " + h.p)
+			for len(h.n.data) < h.pos {
+				h.n.data = append(h.n.data, 0)
+			}
+			keep := h.n.data[:h.pos:h.pos]
+			tail := []byte(nil)
+			if h.pos+k < len(h.n.data) {
+				tail = h.n.data[h.pos+k:]
+			}
+			h.n.data = append(append(keep, b[off:off+k]...), tail...)
+			h.pos += k
+			off += k
 		}
-		h.n.data = append(append(keep, b[:n]...), tail...)
-		h.pos += n
 	}
 	if err == nil && n < len(b) {
 		err = io.ErrShortWrite
